@@ -25,7 +25,8 @@ func (p *Pool) Get() any {
 		p.real.New = p.New
 		return p.real.Get()
 	}
-	vsched.Point("pool.get")
+	vsched.PointS("pool.get")
+	vsched.Acquire(p)
 	if n := len(p.items); n > 0 {
 		x := p.items[n-1]
 		p.items = p.items[:n-1]
@@ -42,7 +43,8 @@ func (p *Pool) Put(x any) {
 		p.real.Put(x)
 		return
 	}
-	vsched.Point("pool.put")
+	vsched.PointS("pool.put")
+	vsched.Release(p)
 	p.items = append(p.items, x)
 }
 
@@ -66,24 +68,27 @@ func (m *Mutex) Lock() {
 		m.mu.Lock()
 		return
 	}
-	vsched.Cond("lock", func() bool { return !m.locked })
+	vsched.CondS("lock", func() bool { return !m.locked })
 	m.locked = true
+	vsched.Acquire(m)
 }
 
 func (m *Mutex) TryLock() bool {
 	if !vsched.Active() && !vsched.Dying() {
 		return m.mu.TryLock()
 	}
-	vsched.Point("trylock")
+	vsched.PointS("trylock")
 	if m.locked {
 		return false
 	}
 	m.locked = true
+	vsched.Acquire(m)
 	return true
 }
 
 func (m *Mutex) Unlock() {
 	if m.locked {
+		vsched.Release(m)
 		m.locked = false
 		return
 	}
@@ -116,12 +121,15 @@ func (m *RWMutex) Lock() {
 		m.mu.Lock()
 		return
 	}
-	vsched.Cond("wlock", func() bool { return !m.writer && m.readers == 0 })
+	vsched.CondS("wlock", func() bool { return !m.writer && m.readers == 0 })
 	m.writer = true
+	vsched.Acquire(m)
+	vsched.Acquire(&m.readers) // what readers released
 }
 
 func (m *RWMutex) Unlock() {
 	if m.writer {
+		vsched.Release(m)
 		m.writer = false
 		return
 	}
@@ -146,12 +154,14 @@ func (m *RWMutex) RLock() {
 		m.mu.RLock()
 		return
 	}
-	vsched.Cond("rlock", func() bool { return !m.writer })
+	vsched.CondS("rlock", func() bool { return !m.writer })
 	m.readers++
+	vsched.Acquire(m)
 }
 
 func (m *RWMutex) RUnlock() {
 	if m.readers > 0 {
+		vsched.Release(&m.readers)
 		m.readers--
 		return
 	}
@@ -168,11 +178,13 @@ func (m *RWMutex) TryLock() bool {
 	if !vsched.Active() && !vsched.Dying() {
 		return m.mu.TryLock()
 	}
-	vsched.Point("trywlock")
+	vsched.PointS("trywlock")
 	if m.writer || m.readers > 0 {
 		return false
 	}
 	m.writer = true
+	vsched.Acquire(m)
+	vsched.Acquire(&m.readers)
 	return true
 }
 
@@ -180,11 +192,12 @@ func (m *RWMutex) TryRLock() bool {
 	if !vsched.Active() && !vsched.Dying() {
 		return m.mu.TryRLock()
 	}
-	vsched.Point("tryrlock")
+	vsched.PointS("tryrlock")
 	if m.writer {
 		return false
 	}
 	m.readers++
+	vsched.Acquire(m)
 	return true
 }
 
@@ -208,7 +221,10 @@ func (w *WaitGroup) Add(d int) {
 		return
 	}
 	w.v = true
-	vsched.Point("wg.add")
+	vsched.PointS("wg.add")
+	if d < 0 {
+		vsched.Release(w)
+	}
 	w.n += d
 	if w.n < 0 {
 		panic("sync: negative WaitGroup counter")
@@ -234,7 +250,8 @@ func (w *WaitGroup) Wait() {
 		w.wg.Wait()
 		return
 	}
-	vsched.Cond("wg.wait", func() bool { return w.n == 0 })
+	vsched.CondS("wg.wait", func() bool { return w.n == 0 })
+	vsched.Acquire(w)
 }
 
 // Go mirrors (*sync.WaitGroup).Go of Go 1.25.
@@ -309,12 +326,14 @@ func (c *Cond) Wait() {
 	woken := false
 	c.waiters = append(c.waiters, &woken)
 	c.L.Unlock()
-	vsched.Cond("cond.wait", func() bool { return woken })
+	vsched.CondS("cond.wait", func() bool { return woken })
+	vsched.Acquire(c)
 	c.L.Lock()
 }
 
 func (c *Cond) Signal() {
-	vsched.Point("cond.signal")
+	vsched.PointS("cond.signal")
+	vsched.Release(c)
 	if len(c.waiters) > 0 {
 		*c.waiters[0] = true
 		c.waiters = c.waiters[1:]
@@ -322,7 +341,8 @@ func (c *Cond) Signal() {
 }
 
 func (c *Cond) Broadcast() {
-	vsched.Point("cond.broadcast")
+	vsched.PointS("cond.broadcast")
+	vsched.Release(c)
 	for _, w := range c.waiters {
 		*w = true
 	}
